@@ -47,6 +47,15 @@ CHECKS = {
  "C06": dict(cat="exploration", tech="differential property testing against refvtl (literal frame evaluation) + metamorphic shuffle of input rows",
    text="16 analytic functions at dataset level and inside calc, partitions, total orderings, data-points/range windows with offsets 0-3 and unbounded bounds, lag/lead offsets 1-3; result recomputed literally per datapoint and re-run on shuffled input.",
    note="orderings are total by construction; a framed function without order by is generated only with the explicit whole-partition window; count only over non-null data.", ref="§3 C06"),
+ "C09": dict(cat="exploration", tech="exhaustive enumeration of the 8x8 cast table x 3 levels with value pools, oracle = documented tables transcribed as data",
+   text="Every (source, target) pair at scalar, component and dataset level: forbidden pairs must be SemanticErrors, allowed pairs must convert every pool value as documented, unconvertible values must raise VTL errors, dataset-level measure renaming as documented.",
+   note="Exhaustive over pairs, pooled over values; renderings the docs leave open are only required to be non-null. Known findings: doc/engine table disagreement (6 pairs), unconvertible values accepted, raw conversion errors for periods/dates.", ref="§3 C09"),
+ "C11": dict(cat="exploration", tech="exhaustive enumeration of 9x9 operand type pairs x operator type declarations (direct promotion functions) and 8x8 pairs x 18 operators x 3 levels through semantic_analysis; oracle = documented implicit-cast table",
+   text="All type pairs for every (type_to_check, return_type) declared by an operator class: acceptance <=> documented common type admitted, check_* agrees with *_promotion, documented result type, order independence for commutative operators; the same through real scripts at scalar, component and dataset level.",
+   note="Complete for the finite domain named; admitted types are read from the operator classes of the current tree.", ref="§3 C11"),
+ "C27": dict(cat="exploration", tech="exhaustive enumeration of pysdmx DataType x Role x object kind + Hypothesis structures; oracle = documented mapping tables",
+   text="Every SDMX data type and role as Schema / DataStructureDefinition / Dataflow through to_vtl_json and semantic_analysis, plus run_sdmx on in-memory PandasDatasets and generated structures of 1-5 components: documented role, type and nullability per component; undocumented types must raise InputValidationException.",
+   note="SDMX-ML/JSON files and URLs are not exercised (no xml extra, no network).", ref="§3 C27"),
 }
 NOT_YET = "check not built yet in this session (work in progress, see DESIGN.md §5)"
 
